@@ -38,6 +38,13 @@ def main():
     if bad:
         thm['ok'] = False
         thm['errors'].append('forbidden declarations: ' + '; '.join(bad[:10]))
+    if tier == 'thorough' and thm['ok']:
+        chk = common.coqchk(pid)
+        thm['coqchk'] = chk
+        ctx.notes.append('coqchk -o on DI.%s and all it depends on: axioms %s (%ss)' % (pid, chk.get('axioms'), chk.get('seconds')))
+        if not chk['ok']:
+            thm['ok'] = False
+            thm['errors'].append('coqchk: ' + str(chk.get('error') or chk.get('axioms')))
 
     if a.replay:
         rep = json.load(open(a.replay))
